@@ -1,3 +1,5 @@
+//go:build go1.23
+
 // Package c19wire is the engine shared by the C19 harnesses (decoders are
 // total and round-trip). It is owned by property C19 and only imported by the
 // c19_* harness files. It contains
